@@ -67,7 +67,11 @@ class Obligation:
         self.functions = [x.strip() for x in d.get("functions", "").split(",") if x.strip()]
         self.timeout = float(d.get("timeout", "600"))
         self.mem_gb = float(d.get("mem_gb", "4"))
+        # extra cargo-kani arguments for this obligation (e.g. --no-memory-safety-checks); recorded in the evidence as an assumption
+        self.kani_args = d.get("kani_args", "").split()
         self.assumes = [x.strip() for x in d.get("assumes", "").split(";") if x.strip()]
+        if self.kani_args:
+            self.assumes.append("checks switched off for this obligation: " + " ".join(self.kani_args))
         self.status = d.get("status", "registered")
         self.canary = d.get("canary", "false").lower() == "true"
         self.min_covers = int(d.get("covers", "1"))
@@ -1118,7 +1122,7 @@ def run_kani(kani_obs, scratch, results, stage_record, extra_tests=None, playbac
             # --no-assertion-reach-checks: Kani's per-assertion reachability covers cost one SAT call each (measured:
             # 124 s -> 9 s on a 1000-check harness); vacuity is guarded by the harness's own kani::cover! + canaries
             cmd = ["cargo", "kani"] + KANI_FLAGS + ["-Z", "concrete-playback", "--concrete-playback=print",
-                                                   "--no-assertion-reach-checks",
+                                                   "--no-assertion-reach-checks"] + ob.kani_args + [
                                                    "--harness", ob.fq_harness(), "--exact"]
             st, secs, peak = run_limited(cmd, stage, ob.timeout * TIME_SCALE, ob.mem_gb, lf)
             text = lf.read_text(errors="replace")
